@@ -50,6 +50,11 @@ func project(raw []kit.M) []kit.M {
 
 // truth fills the ACL ground truth of a scenario (who asks what about which object in which container).
 func truth(m string, c Class) Class {
+	if c.Sig == "exempt" { // authenticated container node, no verification header, TTL 1: author = the peer's TLS key, role CONTAINER
+		c.Basic = m == "Get" || m == "Head" || m == "SearchV2" || m == "Put" // system role: no DELETE / RANGE in the basic ACL words of the world
+		c.EReq, c.EHdr = "allow", "na"                                       // eACL does not apply to the system role
+		return c
+	}
 	owner := c.As == "owner" || c.Tok == "ok" || c.Tok == "expired" || c.Tok == "badsig" || c.Tok == "wrongverb" // a session token makes its issuer (the owner) the author
 	c.Basic = owner || c.Cnr != "priv"
 	c.EReq, c.EHdr = "allow", "na"
@@ -83,6 +88,19 @@ func truth(m string, c Class) Class {
 	return c
 }
 
+// flagsOf lists the request flags of the op that change the shape of the reply.
+func flagsOf(m string) []string {
+	switch m {
+	case "Get":
+		return []string{"payload_only", "raw", "range", "xrange", "payload_only+range", "payload_only+xrange", "payload_only+raw"}
+	case "Head":
+		return []string{"raw", "main_only", "raw+main_only"}
+	case "GetRange":
+		return []string{"raw"}
+	}
+	return nil
+}
+
 type callSpec struct {
 	M   string `json:"m"`
 	Cls Class  `json:"cls"`
@@ -112,6 +130,20 @@ func validScenarios(m string, thorough bool) []Class {
 					valid("denyreq", obj, "owner", ttl, "none"), valid("allowhdr", obj, "owner", ttl, "none"))
 			}
 		}
+	}
+	// request flags that change the shape of the reply, crossed with where the object lives and with the header-time eACL stage
+	for _, fl := range flagsOf(m) {
+		for _, sc := range [][3]any{{"pub", "local", 1}, {"pub", "remote", 2}, {"allowhdr", "remote", 2}, {"allowhdr", "late", 1}} {
+			c := valid(sc[0].(string), sc[1].(string), "other", sc[2].(int), "none")
+			c.Flags = fl
+			out = append(out, c)
+		}
+	}
+	// authenticated container node (mTLS), TTL 1, no verification header: the documented exemption
+	if m == "Get" || m == "Head" || m == "SearchV2" || m == "Put" {
+		c := valid("pub", "local", "peer", 1, "none")
+		c.Sig, c.Peer = "exempt", "mtls"
+		out = append(out, c)
 	}
 	out = append(out, valid("pub", "local", "other", 1, "bearer_ok"))
 	if m != "Delete" { // a session token for DELETE needs the node-side session key (session service), outside this world
@@ -145,6 +177,39 @@ func failingScenarios(m string, thorough bool) []Class {
 		for _, s := range []string{"expired", "badsig", "wrongverb", "bearer_expired", "bearer_badsig"} {
 			mod(b, func(c *Class) { c.Tok = s })
 		}
+	}
+	// signature classes that depend on the transport: a verification header that is present but invalid must be refused
+	// even from an authenticated peer with TTL 1; an authenticated peer with TTL > 1 still needs a signature
+	for _, pc := range []struct {
+		peer, sig string
+		ttl       int
+	}{{"mtls", "forged", 1}, {"", "forged", 1}, {"mtls", "none", 2}, {"mtls", "bad", 1}, {"mtls", "forged", 2}} {
+		c := valid("pub", "local", "other", pc.ttl, "none")
+		c.Peer, c.Sig = pc.peer, pc.sig
+		out = append(out, c)
+		if thorough {
+			c.Cnr, c.As = "priv", "owner"
+			out = append(out, c)
+		}
+	}
+	if m == "Delete" || m == "GetRange" { // the exemption lets the peer in, the basic ACL (system role) refuses
+		c := valid("pub", "local", "peer", 1, "none")
+		c.Sig, c.Peer = "exempt", "mtls"
+		out = append(out, c)
+	}
+	// eACL at header time x every reply shape, local ("late") and fetched copies
+	for _, fl := range flagsOf(m) {
+		for _, sc := range [][2]any{{"remote", 2}, {"late", 1}, {"late", 2}} {
+			c := valid("denyhdr", sc[0].(string), "other", sc[1].(int), "none")
+			c.Flags = fl
+			out = append(out, c)
+		}
+		c := valid("denyhdr", "local", "other", 1, "none") // denied at request time through the local header lookup
+		c.Flags = fl
+		out = append(out, c)
+		c = valid("denyreq", "remote", "other", 2, "none")
+		c.Flags = fl
+		out = append(out, c)
 	}
 	for _, ttl := range []int{1, 2} {
 		out = append(out, valid("priv", "local", "other", ttl, "none"))    // basic ACL
